@@ -192,7 +192,7 @@ let gen_forest r ~ver ~sizes ~cars ~nesting ~invalid ~maxsites : gforest =
       let sites = List.filter_map (fun _ ->
         let car = pick r cars in
         let car = if car = 4 && ver < 5 then 5 else car in   (* the v2-4 writer rejects begin = end *)
-        let nest = if car >= 2 then (match rand_int r 6 with 0 -> 1 | 1 -> 2 | _ -> 0) else 0 in
+        let nest = if car >= 2 then (match rand_int r 10 with 0 -> 1 | 1 -> 2 | _ -> 0) else 0 in
         let nest = if nesting then nest else 0 in
         let op = if car >= 2 then rand_int r (if nesting then 10 else 8) else 0 in
         let info = car = 1 || (car >= 2 && op_info op) in
@@ -234,7 +234,7 @@ let random_subset r n =
 let versions = [| (2, 4, 4); (3, 4, 8); (4, 4, 8); (4, 8, 8); (5, 4, 8); (5, 8, 4); (5, 4, 4); (3, 8, 8) |]
 
 let cars_covered = [| 0; 0; 0; 1; 1; 2; 2; 3 |]
-let cars_all = [| 0; 1; 2; 2; 2; 3; 4; 5; 6 |]
+let cars_all = [| 0; 0; 0; 1; 1; 2; 2; 2; 2; 3; 3; 3; 4; 5; 6 |]
 
 (* depth shapes of k entries *)
 let rec shapes k : int list list =
